@@ -34,9 +34,15 @@ def target_text(t):
     return t if isinstance(t, str) else str(t)
 
 
+def with_colon(r):
+    return r if not isinstance(r, str) or r.startswith(':') else ':' + r
+
+
 def wf_conj_triple(t):
-    """Python mirror of Triples_lemmas.wf_conj_triple."""
+    """Python mirror of Triples_lemmas.wf_conj_triple (a role written without its colon is read as the same role:
+    the statement says the roles COME BACK with their colon)."""
     s, r, x = t
+    r = with_colon(r)
     if not (wf_sym(s) and ',' not in s):
         return False
     if not (isinstance(r, str) and r.startswith(':') and wf_sym(r[1:])):
@@ -49,7 +55,8 @@ def wf_conj_triple(t):
 
 
 SOURCES = ['a', 'b', 'x1', 'é', '^a', 'a#b', 'x.y', '-', '1', 'a^b', 'a\xa0b', 'bark-01']
-ROLES = [':ARG0', ':instance', ':op1', ':ARG0-of', ':r,s', ':^x', ':^', ':a#', ':mod', ':x.y', ':é', ':,']
+ROLES = [':ARG0', ':instance', ':op1', ':ARG0-of', ':r,s', ':^x', ':^', ':a#', ':mod', ':x.y', ':é', ':,',
+         'ARG1', 'instance', 'op2', 'mod-of']       # a hand-built list may leave the colon out: it is written the same
 SYM_TARGETS = ['b', 'bark-01', 'b,c', '^', '^x', ',', 'a#', '-', '+', 'x~1', 'e.1', '　z', '\u201cKim\u201d', '8,400,000', 'x^2',
                '\u2018q\u2019', '\xabg\xbb']
 NUM_TARGETS = [7, 0, -1, -1.5, 0.0, 1e-05, 10 ** 20, float('inf')]
@@ -79,7 +86,7 @@ def render_variant(rng, ts):
     """The same conjunction in a random documented spacing."""
     out = ''
     for i, (s, r, x) in enumerate(ts):
-        role = r[1:]
+        role = with_colon(r)[1:]
         x = target_text(x)
         if x.startswith('"'):
             comma = rng.choice([', ', ' , ', ',', ' ,', ',  ', '\n,\n'])       # a,"s" lexes as  a,  "s"
@@ -197,7 +204,7 @@ def run(chk):
 
     for i, ((kind, ts, indent), (text, res), vtext, vres) in enumerate(zip(cases, obs, variants, vobs)):
         case = {'triples': [list(t) for t in ts], 'indent': indent}
-        want = [[s, r, target_text(x)] for s, r, x in ts]
+        want = [[s, with_colon(r), target_text(x)] for s, r, x in ts]
         nontrivial = len(ts) > 1 or any(isinstance(x, str) and (x.startswith('"') or ',' in x) for _, _, x in ts)
         chk.count(repr((ts, indent)), nontrivial=nontrivial)
         chk.stat(kind)
